@@ -156,11 +156,12 @@ static int do_support(const struct c19_op* o, const char* f)
     return 0;
 }
 
+/* the pointers a C user keeps (file statics of his test file) survive from one test to the next */
+void c19_c_reset(void) { m = 0; e = 0; a = 0; }
 void c19_c_body(void)
 {
     int i;
-    m = 0; e = 0; a = 0;
-    for (i = 0; i < c19.n; i++) {
+    for (i = c19.lo; i < c19.hi; i++) {
         const struct c19_op* o = &c19.ops[i];
         int ok = 0;
         c19_at(i);
@@ -173,5 +174,5 @@ void c19_c_body(void)
         }
         if (!ok) c19_unknown_field();
     }
-    c19_at(c19.n);
+    c19_at(c19.hi);
 }
